@@ -73,6 +73,33 @@ func c06Notify(c *core.Ctx) {
 	if nSend == 0 {
 		c.Violate(rule, "send-ReorgedBlock", token.NoPos, "nobody notifies subscribers of a reorg")
 	}
+	// (a') the notifier does not wait for the subscriber while it holds the subscriptions lock: Subscribe needs the write
+	// lock, so a subscriber that is created while a notification is pending (start-up after a reorg) would never exist
+	if nf := c.MustFn(rule, "reorgdetector", "ReorgDetector", "notifySubscriber"); nf != nil {
+		isChanOp := func(i ssa.Instruction) bool {
+			switch x := i.(type) {
+			case *ssa.Send, *ssa.Select:
+				return true
+			case *ssa.UnOp:
+				return x.Op == token.ARROW
+			}
+			return false
+		}
+		held, nLock := false, 0
+		core.Instrs(nf, func(i ssa.Instruction) {
+			if _, isCall := i.(*ssa.Call); isCall && core.IsCallTo(i, "(*sync.RWMutex).RLock", "(*sync.RWMutex).Lock", "(*sync.Mutex).Lock") {
+				nLock++
+				w := &core.Walk{NoEnv: true, Target: isChanOp, Stop: func(x ssa.Instruction) bool {
+					_, isCall := x.(*ssa.Call) // a deferred unlock releases at the exit, not here
+					return isCall && core.IsCallTo(x, "(*sync.RWMutex).RUnlock", "(*sync.RWMutex).Unlock", "(*sync.Mutex).Unlock")
+				}}
+				if w.From(core.After(i), nil) != nil {
+					held = true
+				}
+			}
+		})
+		c.Decide(!held, rule, "reorgdetector.(*ReorgDetector).notifySubscriber#no-wait-under-lock", nf.Pos(), fmt.Sprintf("no channel operation between a lock and its unlock (%d lock calls)", nLock))
+	}
 	// (b) call sites of notifySubscriber
 	sites := c.AllCallsTo("(*reorgdetector.ReorgDetector).notifySubscriber")
 	if len(sites) != 1 {
@@ -435,6 +462,18 @@ func c06Finality(c *core.Ctx) {
 			if flagTermOK(v) {
 				ok = true
 			}
+			// the number compared is the number of the block that gets the flag (a range that straddles the finalized
+			// block has members on both sides: a flag computed once for the range leaves the upper ones untracked)
+			base := strings.TrimSuffix(sx.Of(st.Addr).String(), ".IsFinalizedBlock")
+			own := strings.Contains(v, "("+base+".Num <= ") || strings.Contains(v, "("+base+".EVMBlockHeader.Num <= ")
+			if fa, isFA := st.Addr.(*ssa.FieldAddr); isFA && !own {
+				// a block built in place: the number is that of the header put into the same literal
+				if bt := sx.Of(fa.X); bt.Op == "lit" && bt.Fields["EVMBlockHeader"] != nil {
+					own = strings.Contains(v, "("+bt.Fields["EVMBlockHeader"].String()+".Num <= ")
+					base = "the block literal"
+				}
+			}
+			c.Decide(own, rule, "sync.(*EVMDownloader)."+h+"#flag-of-this-block", st.Pos(), fmt.Sprintf("the flag stored into %s compares that block's own number: %s", base, v))
 		})
 		if !ok {
 			// literal form: EVMBlock{IsFinalizedBlock: …}
@@ -504,13 +543,13 @@ func init() {
 	register(&Property{
 		ID:          "C06",
 		Level:       "other",
-		Explanation: "Decides the structural necessary conditions of reorg detection and rewind on every path: C06-track — the driver hands a block to the store only after the reorg detector accepted it for tracking (or it is finalized), tracking (id, b.Num, b.Hash) of the delivered block; C06-notify — the only send on Subscription.ReorgedBlock is notifySubscriber's, called from one site, only on the edge where the tracked hash differs from the current header's hash for the same number, with the current element of an ascending getSorted() range, leaving the loop after the first notification, and on the equal edge only finalized entries are dropped; C06-rewind/C06-value — handleReorg cancels the download before Reorg, passes the notified value unchanged, retries until Reorg returns nil, only then acknowledges, never returns without acknowledging, and Sync re-reads the last processed block and restarts the download afterwards (C05-restart). Convergence for all fork shapes, restart points and detector/driver interleavings is not decided. Added after round 7: C06-finality (finalized block sampled before the fetch; report helpers get min(tip, sample); flag only for numbers <= it; no arithmetic on the finalized bound when tracking is dropped), C06-audit (the audit row a notification waits for is keyed by detection time).",
+		Explanation: "Decides the structural necessary conditions of reorg detection and rewind on every path: C06-track — the driver hands a block to the store only after the reorg detector accepted it for tracking (or it is finalized), tracking (id, b.Num, b.Hash) of the delivered block; C06-notify — the only send on Subscription.ReorgedBlock is notifySubscriber's, called from one site, only on the edge where the tracked hash differs from the current header's hash for the same number, with the current element of an ascending getSorted() range, leaving the loop after the first notification, and on the equal edge only finalized entries are dropped; C06-rewind/C06-value — handleReorg cancels the download before Reorg, passes the notified value unchanged, retries until Reorg returns nil, only then acknowledges, never returns without acknowledging, and Sync re-reads the last processed block and restarts the download afterwards (C05-restart). Convergence for all fork shapes, restart points and detector/driver interleavings is not decided. Added after round 7: C06-finality (finalized block sampled before the fetch; report helpers get min(tip, sample); flag only for numbers <= it; no arithmetic on the finalized bound when tracking is dropped), C06-audit (the audit row a notification waits for is keyed by detection time). Added after round 9: the finality flag compares the number of the block it is stored into; notifySubscriber does no channel operation between a lock and its unlock.",
 		Rules: []Rule{
-			{ID: "C06-finality", Floor: 7, Run: c06Finality, Text: "[DOM]+[PROV] finalized block sampled before the fetch; both report helpers get min(tip, that sample); flag only for numbers <= it"},
+			{ID: "C06-finality", Floor: 9, Run: c06Finality, Text: "[DOM]+[PROV] finalized block sampled before the fetch; both report helpers get min(tip, that sample); flag only for numbers <= it"},
 			{ID: "C06-audit", Floor: 1, Run: c06Audit, Text: "[SCHEMA]+[DOM] the audit row a notification waits for is keyed by detection time"},
 			{ID: "C06-track", Floor: 2, Run: c06Track, Text: "[DOM]+flag threading: ProcessBlock only after AddBlockToTrack()==nil or IsFinalizedBlock"},
 			{ID: "C06-tracked", Floor: 3, Run: c06Tracked, Text: "[WHO]+[DOM] a subscriber's tracked list is replaced only when absent/empty or from the database"},
-			{ID: "C06-notify", Floor: 8, Run: c06Notify, Text: "[WHO]+[DOM]+[PROV] single notifier, only on hash mismatch, first mismatching block in ascending order"},
+			{ID: "C06-notify", Floor: 9, Run: c06Notify, Text: "[WHO]+[DOM]+[PROV] single notifier, only on hash mismatch, first mismatching block in ascending order"},
 			{ID: "C06-rewind", Floor: 5, Run: c06Rewind, Text: "[DOM] cancel before Reorg; ack only after Reorg()==nil; no return without ack; detector waits for ack"},
 			{ID: "C06-reset", Floor: 2, Run: shared("C06-reset", c05Restart), Text: "[PROV]+[DOM] (shared with C05-restart) Sync re-reads the last processed block after every reorg; reorg value passed unchanged"},
 		},
